@@ -15,11 +15,11 @@ import (
 
 // condSpec is one filter condition as its JSON body gives it (see lean/Martian/Model/ConfigCond.lean).
 type condSpec struct {
-	kind       byte // m method, u url, q querystring, h header, c cookie
+	kind       byte // m method, u url, q querystring, h header, c cookie, p port (a = decimal port)
 	a, b, c, d string
 }
 
-var filterNames = map[byte]string{'m': "method.Filter", 'u': "url.Filter", 'q': "querystring.Filter", 'h': "header.Filter", 'c': "cookie.Filter"}
+var filterNames = map[byte]string{'m': "method.Filter", 'u': "url.Filter", 'q': "querystring.Filter", 'h': "header.Filter", 'c': "cookie.Filter", 'p': "port.Filter"}
 
 func (c *condSpec) filter() string { return filterNames[c.kind] }
 
@@ -27,6 +27,8 @@ func (c *condSpec) token() string {
 	switch c.kind {
 	case 'm':
 		return "m:" + core.HexS(c.a)
+	case 'p':
+		return "p:" + c.a
 	case 'u':
 		return "u:" + core.HexS(c.a) + ":" + core.HexS(c.b) + ":" + core.HexS(c.c) + ":" + core.HexS(c.d)
 	}
@@ -43,6 +45,8 @@ func (c *condSpec) params() string {
 	switch c.kind {
 	case 'm':
 		return `"method": ` + jstr(c.a) + `, `
+	case 'p':
+		return `"port": ` + c.a + `, `
 	case 'u':
 		s := ""
 		for i, kv := range [][2]string{{"scheme", c.a}, {"host", c.b}, {"path", c.c}, {"query", c.d}} {
@@ -91,6 +95,15 @@ func parseCondTok(s string) (*condSpec, bool) {
 	f := strings.Split(s, ":")
 	if len(f[0]) != 1 {
 		return nil, false
+	}
+	if f[0] == "p" { // port.Filter: a decimal int64
+		if len(f) != 2 {
+			return nil, false
+		}
+		if i, err := strconv.ParseInt(f[1], 10, 64); err != nil || strconv.FormatInt(i, 10) != f[1] {
+			return nil, false
+		}
+		return &condSpec{kind: 'p', a: f[1]}, true
 	}
 	c := &condSpec{kind: f[0][0]}
 	want := map[byte]int{'m': 2, 'u': 5, 'q': 3, 'h': 3, 'c': 3}[c.kind]
@@ -204,6 +217,25 @@ func parseTETok(s string) ([]string, bool) {
 	return out, true
 }
 
+// hostPortOK: URL.Host has no port, or exactly one ':' followed by a decimal port (port.Filter returns
+// an error of its own for anything else; such hosts are outside the domain of the check).
+func hostPortOK(h string) bool {
+	i := strings.IndexByte(h, ':')
+	if i < 0 {
+		return true
+	}
+	p := h[i+1:]
+	if p == "" || len(p) > 5 {
+		return false
+	}
+	for _, c := range p {
+		if c < '0' || c > '9' {
+			return false
+		}
+	}
+	return true
+}
+
 func sameCookies(cs []*http.Cookie, want [][2]string) bool {
 	if len(cs) != len(want) {
 		return false
@@ -241,7 +273,7 @@ func parseMessage(tok string) (*message, bool) {
 	m.resTE, ok[3] = parseTETok(f[11])
 	m.resHdr, ok[4] = parsePairsTok(f[12])
 	m.resCk, ok[5] = parsePairsTok(f[13])
-	if err1 != nil || err2 != nil || ok != [6]bool{true, true, true, true, true, true} || !isASCII(m.method) {
+	if err1 != nil || err2 != nil || ok != [6]bool{true, true, true, true, true, true} || !isASCII(m.method) || !hostPortOK(m.host) {
 		return nil, false
 	}
 	for _, h := range append(append([][2]string{}, m.reqHdr...), m.resHdr...) {
@@ -406,6 +438,19 @@ func holdsSpec(c *condSpec, m *message, response bool) (holds, known bool) {
 			}
 		}
 		return false, true
+	case 'p':
+		// the port of the request URL, explicit or the scheme's default
+		port := map[string]string{"http": "80", "https": "443"}[m.scheme]
+		if port == "" {
+			port = "0"
+		}
+		if i := strings.IndexByte(m.host, ':'); i >= 0 {
+			port = strings.TrimLeft(m.host[i+1:], "0")
+			if port == "" {
+				port = "0"
+			}
+		}
+		return port == c.a, true
 	case 'c':
 		cks := m.reqCk
 		if response {
